@@ -184,13 +184,17 @@ func capPreCount(swampObj swamp.Swamp, predicate func(treasureForCount) bool) (i
 	adapted := func(t treasure.Treasure) bool {
 		return predicate(t)
 	}
-	count := swampObj.CountMatchingTreasures(adapted)
-	verifhook.Point("gw.patch.cap.afterCount")
 	// Cap-bearing patch flows serialise on swamp.capMu — but the swamp
 	// interface does not expose it directly. Acquire it via the
 	// public LockCapMu / UnlockCapMu accessors added on the swamp
 	// interface so the gateway can hold it for the whole batch.
+	//
+	// The count must be taken AFTER capMu is held: counted before, two
+	// concurrent batches both start from the same count and together
+	// accept more (no→yes) transitions than the cap allows.
 	swampObj.LockCapMu()
+	count := swampObj.CountMatchingTreasures(adapted)
+	verifhook.Point("gw.patch.cap.afterCount")
 	return count, swampObj.UnlockCapMu
 }
 
